@@ -25,6 +25,9 @@ type mapLoop struct {
 	key    ssa.Value
 	val    ssa.Value
 	blocks map[*ssa.BasicBlock]bool // loop blocks (header included)
+	kinds  []string                 // normalised kinds of the order-sensitive effects found (for tabled loops)
+	hdr    *ssa.BasicBlock          // header block (slice loops)
+	idxPhi *ssa.Phi                 // induction variable (slice loops)
 }
 
 func mapLoops(fn *ssa.Function) []*mapLoop {
@@ -56,6 +59,13 @@ func mapLoops(fn *ssa.Function) []*mapLoop {
 		}
 	}
 	return out
+}
+
+func (l *mapLoop) isNormalExit(b *ssa.BasicBlock) bool {
+	if l.next != nil {
+		return b == l.next.Block()
+	}
+	return b == l.hdr
 }
 
 func isSortCall(c *ssa.CallCommon) (kind string, ok bool) {
@@ -99,7 +109,9 @@ func (r *Run) classifyMapLoop(l *mapLoop) (class, arg string) {
 	var appendsTo []ssa.Value // accumulators (phi or cell) appended to inside the loop
 	effects := 0
 	var why []string
+	l.kinds = nil
 	bad := func(s string) { why = append(why, s) }
+	kind := func(k string) { l.kinds = append(l.kinds, k) }
 	keyDep := func(v ssa.Value) bool { return l.key != nil && dependsOnThroughMem(v, l.key) }
 	for b := range l.blocks {
 		for _, ins := range b.Instrs {
@@ -118,6 +130,7 @@ func (r *Run) classifyMapLoop(l *mapLoop) (class, arg string) {
 				if isEmptyStruct(x.Value.Type()) {
 					continue
 				}
+				kind("mapwrite-unkeyed")
 				bad("map write at " + r.P.pos(x.Pos()) + " whose key does not derive from the loop key (last writer wins)")
 			case *ssa.Store:
 				// stores into fresh allocations made inside the loop are construction
@@ -156,15 +169,19 @@ func (r *Run) classifyMapLoop(l *mapLoop) (class, arg string) {
 					}
 				}
 				effects++
+				kind("store")
 				bad("store at " + r.P.pos(x.Pos()) + " to memory that outlives the iteration")
 			case *ssa.Send:
 				effects++
+				kind("send")
 				bad("channel send at " + r.P.pos(x.Pos()))
 			case *ssa.Go:
 				effects++
+				kind("go")
 				bad("goroutine spawned at " + r.P.pos(x.Pos()))
 			case *ssa.Return:
 				effects++
+				kind("return")
 				bad("return inside the loop at " + r.P.pos(retPos(x)) + " (which iteration exits first depends on map order)")
 			case *ssa.Call:
 				if bi, ok := x.Call.Value.(*ssa.Builtin); ok {
@@ -180,6 +197,7 @@ func (r *Run) classifyMapLoop(l *mapLoop) (class, arg string) {
 					case "delete":
 						effects++
 						if !keyDep(x.Call.Args[1]) {
+							kind("delete-unkeyed")
 							bad("delete at " + r.P.pos(x.Pos()) + " with a key not derived from the loop key")
 						}
 					}
@@ -189,6 +207,7 @@ func (r *Run) classifyMapLoop(l *mapLoop) (class, arg string) {
 					continue
 				}
 				effects++
+				kind("call:" + calleeDesc(&x.Call))
 				bad("call of " + calleeDesc(&x.Call) + " at " + r.P.pos(x.Pos()) + " whose effects are not summarised")
 			}
 		}
@@ -196,8 +215,9 @@ func (r *Run) classifyMapLoop(l *mapLoop) (class, arg string) {
 	// exits other than the iterator running out: break / return / goto out of the loop
 	for b := range l.blocks {
 		for _, s := range b.Succs {
-			if !l.blocks[s] && b != l.next.Block() {
+			if !l.blocks[s] && !l.isNormalExit(b) {
 				effects++
+				kind("early-exit")
 				bad("early exit from the loop at " + r.P.pos(firstPos(s)) + " (which iteration exits first depends on map order)")
 			}
 		}
@@ -207,6 +227,9 @@ func (r *Run) classifyMapLoop(l *mapLoop) (class, arg string) {
 		for _, ins := range b.Instrs {
 			p, ok := ins.(*ssa.Phi)
 			if !ok {
+				continue
+			}
+			if l.idxPhi != nil && p == l.idxPhi {
 				continue
 			}
 			isAcc := false
@@ -245,6 +268,7 @@ func (r *Run) classifyMapLoop(l *mapLoop) (class, arg string) {
 			if commutativeAccumulator(p, l.blocks) {
 				continue
 			}
+			kind("carried:" + shortType(p.Type()))
 			bad("loop-carried value " + p.Name() + " (" + shortType(p.Type()) + ") updated in a way not recognised as commutative")
 		}
 	}
@@ -256,6 +280,7 @@ func (r *Run) classifyMapLoop(l *mapLoop) (class, arg string) {
 		for _, acc := range appendsTo {
 			ok, msg := r.sortedAfter(acc, l)
 			if !ok {
+				kind("append-unsorted")
 				return "", msg
 			}
 		}
@@ -555,8 +580,10 @@ func ruleMapRanges(sc scope, min int) ruleFn {
 				if class, arg := r.classifyMapLoop(l); class != "" {
 					r.OK(rule, name, construct, site, "class "+class+": "+arg)
 					continue
-				} else if reason, ok := useTable(r, detTable, name+"/"+construct); ok {
+				} else if reason, ok := useTable(r, detTable, name+"/"+construct); ok && kindsAllowed(l.kinds, detKinds[name+"/"+construct]) {
 					r.Tabled(rule, name, construct, site, "det", reason)
+				} else if _, tabled := detTable[name+"/"+construct]; tabled && !kindsAllowed(l.kinds, detKinds[name+"/"+construct]) {
+					r.Bad(rule, name, construct, site, "this loop is tabled as order-insensitive for the effects "+strings.Join(detKinds[name+"/"+construct], ", ")+", but it now also has: "+strings.Join(extraKinds(l.kinds, detKinds[name+"/"+construct]), ", ")+" — "+arg)
 				} else {
 					r.Bad(rule, name, construct, site, "iteration over a map whose effects depend on the iteration order: "+arg)
 				}
@@ -868,4 +895,129 @@ func ruleSelects(r *Run) {
 		}
 	}
 	r.AtLeast(rule, "multi-way selects", n, 3)
+}
+
+// ---- loops over plan-step lists ------------------------------------------------------------
+// The order of sibling steps (QueryPlan.RootSteps, QueryPlanStep.Then) comes from ranging a
+// map in the planner (tabled there as "permutes independent steps only"). That argument holds
+// only if every consumer of such a list is itself order-insensitive, which is checked here with
+// the same effect classification as for map ranges.
+
+type sliceLoop struct {
+	mapLoop
+	elemAddr *ssa.IndexAddr
+}
+
+func stepListLoops(fn *ssa.Function) []*mapLoop {
+	var out []*mapLoop
+	seen := map[*ssa.BasicBlock]bool{}
+	for _, ins := range allInstrs(fn) {
+		ia, ok := ins.(*ssa.IndexAddr)
+		if !ok {
+			continue
+		}
+		st := shortType(ia.X.Type())
+		if st != "[]*planner.QueryPlanStep" {
+			continue
+		}
+		// index = phi+1 of a rangeindex loop, or phi of a classic loop
+		var phi *ssa.Phi
+		if add, ok := ia.Index.(*ssa.BinOp); ok && add.Op == token.ADD {
+			phi, _ = add.X.(*ssa.Phi)
+		} else {
+			phi, _ = ia.Index.(*ssa.Phi)
+		}
+		if phi == nil {
+			continue
+		}
+		loop := naturalLoop(phi.Block())
+		if len(loop) == 0 || seen[phi.Block()] {
+			continue
+		}
+		seen[phi.Block()] = true
+		var val ssa.Value
+		for _, ref := range *ia.Referrers() {
+			if ld, ok := ref.(*ssa.UnOp); ok && ld.Op == token.MUL {
+				val = ld
+			}
+		}
+		l := &mapLoop{fn: fn, blocks: loop, key: ia.Index, val: val, hdr: phi.Block(), idxPhi: phi}
+		out = append(out, l)
+	}
+	return out
+}
+
+var stepLoopTable = map[string]tabEntry{
+	"executor.NewDepthExecutorManager": {1, "walkPlanStep appends each step to the list of its depth: the order inside a depth only decides the order of requests inside a batch"},
+	"executor.walkPlanStep":            {1, "recursion over Then: appends to per-depth lists, see NewDepthExecutorManager"},
+	"pebbles.(*Gateway).getQueryers":   {1, "first-writer-wins per URL, and the value is a function of the URL alone (factory(ctx, url))"},
+	"pebbles.(*Gateway).parseIntrospectionQuery": {1, "early return at the internal pseudo-service step: routeSelectionSet creates at most one step per location, so at most one step matches"},
+	"pebbles.(*Gateway).newSubscriptionEntry":    {1, "collects the children of the (single) root step; more than one root step is rejected right after"},
+	"pebbles.(*Gateway).newSubscriptionEntry$1":  {1, "one new root step per insertion point of each child: appended list is executed as a set (grouped by URL, merged by insertion point)"},
+	"executor.(*DepthExecutorManager).Execute":   {1, "builds one execution request per root step; the list is grouped by URL and merged by response key"},
+	"executor.findNextExecutionRequestsWithCache": {1, "one request per dependent step and insertion point; consumed as a set"},
+	"planner.(*QueryPlan).SetComputedValues":      {1, "rewrites element i with the computed form of element i"},
+	"planner.(*QueryPlanStep).SetComputedValues":  {1, "rewrites element i with the computed form of element i"},
+	"planner.extractSelectionSet":                 {1, "searches the children created so far for the step of one URL and insertion point: at most one matches (steps are keyed by location)"},
+}
+
+func ruleStepListLoops(r *Run) {
+	const rule = "R9a.steps"
+	n := 0
+	var fns []*ssa.Function
+	fns = append(fns, r.P.Funcs...)
+	sort.Slice(fns, func(i, j int) bool { return fnName(fns[i]) < fnName(fns[j]) })
+	for _, fn := range fns {
+		for _, l := range stepListLoops(fn) {
+			n++
+			name := fnName(fn)
+			site := r.P.pos(firstPos(l.hdr))
+			construct := "range over []*QueryPlanStep"
+			if class, arg := r.classifyMapLoop(l); class != "" {
+				r.OK(rule, name, construct, site, "class "+class+": "+arg)
+			} else if reason, ok := useTable(r, stepLoopTable, name); ok && kindsAllowed(l.kinds, stepKinds[name]) {
+				r.Tabled(rule, name, construct, site, "stepLoop", reason)
+			} else if _, tabled := stepLoopTable[name]; tabled && !kindsAllowed(l.kinds, stepKinds[name]) {
+				r.Bad(rule, name, construct, site, "this loop over sibling plan steps is tabled as order-insensitive for the effects "+strings.Join(stepKinds[name], ", ")+", but it now also has: "+strings.Join(extraKinds(l.kinds, stepKinds[name]), ", ")+" — "+arg)
+			} else {
+				r.Bad(rule, name, construct, site, "the order of sibling plan steps follows Go's map iteration in the planner; this loop's effect depends on that order: "+arg)
+			}
+		}
+	}
+	r.AtLeast(rule, "loops over plan-step lists", n, 8)
+}
+
+func kindsAllowed(got, allowed []string) bool { return len(extraKinds(got, allowed)) == 0 }
+
+func extraKinds(got, allowed []string) []string {
+	a := map[string]bool{}
+	for _, k := range allowed {
+		a[k] = true
+	}
+	var out []string
+	seen := map[string]bool{}
+	for _, k := range got {
+		if !a[k] && !seen[k] {
+			seen[k] = true
+			out = append(out, k)
+		}
+	}
+	sort.Strings(out)
+	return out
+}
+
+// dumpKinds prints the effect kinds of every tabled loop (development aid: PEB_KINDS=1).
+func dumpKinds(r *Run) {
+	for _, fn := range r.P.Funcs {
+		for _, l := range mapLoops(fn) {
+			if c, _ := r.classifyMapLoop(l); c == "" {
+				fmt.Printf("KINDS det %q: %q\n", fnName(fn)+"/"+rangeKeyDesc(l), extraKinds(l.kinds, nil))
+			}
+		}
+		for _, l := range stepListLoops(fn) {
+			if c, _ := r.classifyMapLoop(l); c == "" {
+				fmt.Printf("KINDS step %q: %q\n", fnName(fn), extraKinds(l.kinds, nil))
+			}
+		}
+	}
 }
